@@ -23,12 +23,68 @@ class Ctx:
         self.nctx = self.t.ctx(idx.enums, aliases)
         self.w = dl.Widths(idx, fi.cls, self.t, extra_bits)
         self.eng = dl.Engine(self.w, self.nctx)
+        if not getattr(self.t, "wires_expanded", False):
+            self.expand_wires()
+            self.t.wires_expanded = True
         self.groups, self.tir = {}, {}
         for d in self.t.drivers:
             tn = self.norm(d.target)
             key = (d.domain, ir.show(tn))
             self.groups.setdefault(key, []).append(d)
             self.tir[key] = tn
+
+    def expand_wires(self):
+        """`x.eq(w)` where w is a local signal driven only combinationally and only as a whole: the driver is replaced by
+        w's own drivers re-targeted at x (guards conjoined, w's priority order kept) plus a lowest-priority entry for
+        w's default value.  An intermediate combinational wire is then invisible to the decision lists."""
+        for _ in range(3):
+            whole, partial, nd = {}, set(), {}
+            for d_ in self.t.drivers:
+                tn = self.norm(d_.target)
+                if tn[0] == 'sig':
+                    whole.setdefault(tn, []).append(d_)
+                else:
+                    for x in ir.walk(tn):
+                        if x[0] == 'sig':
+                            partial.add(x)
+            wires = {s: ds for s, ds in whole.items() if s not in partial and all(x.domain == 'comb' for x in ds)}
+            if not wires:
+                return
+            out, changed = [], False
+            for d_ in self.t.drivers:
+                v = self.norm(d_.value)
+                if v[0] == 'sig' and v in wires and self.norm(d_.target) != v:
+                    init = self.wire_default(v)
+                    if init is None:
+                        out.append(d_)
+                        continue
+                    changed = True
+                    out.append(dsl.Driver(d_.domain, d_.target, init, d_.dsl, d_.gen, tuple(d_.order) + (0,), d_.lineno, d_.seqno))
+                    for w_ in wires[v]:
+                        gen = d_.gen + tuple(fr for fr in w_.gen if fr not in d_.gen)
+                        out.append(dsl.Driver(d_.domain, d_.target, w_.value, d_.dsl + w_.dsl, gen,
+                                              tuple(d_.order) + (1,) + tuple(w_.order), w_.lineno, w_.seqno))
+                else:
+                    out.append(d_)
+            if not changed:
+                return
+            self.t.drivers[:] = out
+
+    def wire_default(self, s, depth=0):
+        """Reset / default value of a local signal: init= of its constructor, the default of the signal it is `like`, else 0."""
+        sig = self.t.sigs.get(s[1])
+        if sig is None or sig.ctor[0] != 'call' or depth > 3:
+            return None
+        kws = dict(sig.ctor[3])
+        if 'init' in kws or 'reset' in kws:
+            return kws.get('init', kws.get('reset'))
+        fn = sig.ctor[1]
+        if fn == ('attr', ('name', 'Signal'), 'like') and sig.ctor[2]:
+            src = self.norm(sig.ctor[2][0])
+            if src[0] == 'sig':
+                return self.wire_default(src, depth + 1)
+            return None                                  # like(<port member>): default not known here
+        return ('const', 0)
 
     def norm(self, e):
         e = ir.norm(e, self.nctx)
